@@ -76,7 +76,10 @@ INFO = dict(
                "extraction and the array instrumentation), the translator harness/py2lean2.py + py2lean2w.py and the C05 "
                "vocabulary (harness/trans_c05.py rules -> Core/C05Src.lean operations: a rule that mistranslated a numpy "
                "expression would make the obligation speak about something else; the correspondence runs on the same "
-               "functions), the Python harness and oracle, the driver's parser.  numpy "
+               "functions; before translating, trans_c05 normalises the source: `if x is None: x = e` -> conditional expression, "
+               "a local that is a bare alias of an attribute of self -> the attribute, a single-assignment read-only local "
+               "with a pure total right-hand side -> inlined; all three behaviour preserving under their syntactic side "
+               "conditions), the Python harness and oracle, the driver's parser.  numpy "
                "`reshape` / boolean-mask indexing / `fill_diagonal` / broadcasting / dtype-of-construction semantics "
                "are modelled (exercised by the correspondence, not verified).  `np.linalg.eigh` is a contract "
                "parameter (symmetric input -> unit eigenvector of the largest eigenvalue), checked numerically on "
@@ -1266,7 +1269,18 @@ def explore_object(ctx, rng, rc, lines, recs, n_wrong, with_model=True):
     try:
         obj = build(rc)
     except Exception as e:
-        raise common.Infra("generator produced a recipe the constructor rejects (%s): %r" % (type(e).__name__, rc))
+        # the constructor, or the previous life of the object (copy / from_vector / from_vector_inplace of its OWN vector)?
+        try:
+            fresh = build(dict(rc, life="fresh"))
+        except Exception:
+            raise common.Infra("generator produced a recipe the constructor rejects (%s): %r" % (type(e).__name__, rc))
+        ctx.count("class:" + c)
+        ctx.fail("C05/from_vector/" + supplier_of(fresh, "_from_vector_inplace"), "raises",
+                 "%s: giving the object its previous life %r (copy / from_vector / from_vector_inplace of its own or a "
+                 "right-length vector) raised %s: %s" % (c, rc.get("life"), type(e).__name__, e),
+                 {"recipe": rc, "python": py_of(rc, None, "")})
+        ctx.case((c, "life-raises", json.dumps(rc, sort_keys=True)), nontrivial=True)
+        return
     ctx.count("class:" + c)
     if c in IMAGES:
         ctx.count("dtype:" + rc["dtype"])
